@@ -582,6 +582,10 @@ pub struct C13Scenario {
     /// are enumerated: the store then holds unfinished slots next to the last completed run
     #[serde(default)]
     pub killed_before: usize,
+    /// (only with a checkpoint) the last completed run before the crash is one that selects nothing: no target
+    /// changed since the checkpoint and no -t was given. It is a completed run like any other.
+    #[serde(default)]
+    pub noop_before_crash: bool,
 }
 
 #[derive(Serialize, Deserialize, Clone, Debug, PartialEq)]
@@ -627,6 +631,7 @@ fn gen_c13(seed: u64, idx: usize, tier: Tier) -> C13Scenario {
         retained_after_prefix,
         // one history in four: 1..max earlier runs were killed too
         killed_before: if rng.chance(1, 4) { rng.range(1, max.min(4)) } else { 0 },
+        noop_before_crash: rng.chance(1, 3),
     }
 }
 
@@ -733,6 +738,15 @@ impl Property for C13 {
             }
             out.fault("retention_limit_changed_before_the_killed_run", 1);
             out.trace.push(format!("max_retained_runs {} -> {}", sc.spec.max_retained_runs, m));
+        }
+        if sc.noop_before_crash && sc.checkpoint {
+            let ns = RunScript { rand_seed: Some(sc.rand_seed), ..RunScript::simple(RunOpts { commands: sc.crash_run.opts.commands.clone(), ..Default::default() }) };
+            let tr = drive_run(&mut w, "M1", &ns, hang);
+            if tr.hang.is_some() || tr.code() != Some(0) || !tr.helpers.is_empty() {
+                return Outcome::skip("noop_run_was_not_a_noop(harness)");
+            }
+            out.fault("last_completed_run_selected_nothing", 1);
+            out.trace.push("a run that selects nothing completed".into());
         }
         if sc.killed_before > 0 {
             let before = snapshot(&w);
@@ -942,6 +956,11 @@ impl Property for C13 {
             if sc.killed_before > 0 {
                 let mut s = sc.clone();
                 s.killed_before -= 1;
+                outv.push(serde_json::to_value(s).unwrap());
+            }
+            if sc.noop_before_crash {
+                let mut s = sc.clone();
+                s.noop_before_crash = false;
                 outv.push(serde_json::to_value(s).unwrap());
             }
             if sc.crash_run.behav.iter().any(|b| !b.outs.is_empty() || b.code != 0) {
